@@ -9,6 +9,7 @@ import (
 	"encoding/binary"
 	"encoding/hex"
 	"fmt"
+	"net"
 	"sort"
 	"strconv"
 	"strings"
@@ -122,8 +123,25 @@ func c39HsOp(t *verifh.T, op []string) {
 		if len(rem) > 0 {
 			remTok = strings.Join(rem, ";")
 		}
+		// the message crosses the wire exactly as between two peers: sendMessage / readMessage (length prefix + protobuf)
+		wire := "ok"
+		c1, c2 := net.Pipe()
+		sendErr := make(chan error, 1)
+		go func() { sendErr <- sendMessage(c1, m); c1.Close() }()
+		mWire, rerr := readMessage(c2)
+		c2.Close()
+		if serr := <-sendErr; serr != nil {
+			wire = "senderr"
+		} else if rerr != nil {
+			wire = "readerr"
+		}
+		if wire != "ok" {
+			t.One(op, "ok", "pid="+verifh.Str(bm.PeerID), "name="+verifh.Str(bm.Name), "ih="+verifh.Str(bm.InfoHash),
+				"bf="+verifh.Hex(bm.BitfieldBytes), "remote="+remTok, "wire="+wire, "back=-")
+			return
+		}
 		back := "ok"
-		h2, err := handshakeFromP2PMessage(m)
+		h2, err := handshakeFromP2PMessage(mWire)
 		if err != nil {
 			back = c39HsErr(bm, err)
 		} else {
@@ -142,7 +160,7 @@ func c39HsOp(t *verifh.T, op []string) {
 			t.PropFail("handshake-roundtrip", "namespace")
 		}
 		t.One(op, "ok", "pid="+verifh.Str(bm.PeerID), "name="+verifh.Str(bm.Name), "ih="+verifh.Str(bm.InfoHash),
-			"bf="+verifh.Hex(bm.BitfieldBytes), "remote="+remTok, "back="+back)
+			"bf="+verifh.Hex(bm.BitfieldBytes), "remote="+remTok, "wire="+wire, "back="+back)
 	case "hsde":
 		pidS, _ := c39Kv(op, "pid")
 		ihS, _ := c39Kv(op, "ih")
